@@ -91,6 +91,22 @@ def r1(ctx):
                             src = trace(pb, qt["a"][0], through_calls=False)
                             if any(o.kind == "call" and callee_matches(o.data, GATES) for o in src):
                                 via_adapter = True
+                        # ... or handed to a private helper of the actor that applies it to a gate's result the same way
+                        # (`reply_with_open_state(reply, &namespace, |open| ..)`: `states.get_mut(namespace).and_then(f)`)
+                        for ai, a in enumerate(qt["a"]):
+                            if not (a[0] in ("copy", "move") and a[1]["l"] == cl_local and not a[1]["p"]):
+                                continue
+                            for hp in mir.callee_paths(qt):
+                                hb = f.bodies.get(hp)
+                                if hb is None or not hp.startswith("actor::"):
+                                    continue
+                                for hbi, ht in hb.calls():
+                                    if ht["f"].get("name") not in ("and_then", "map"):
+                                        continue
+                                    fn_from_param = any(o.kind == "arg" and o.data[0] == ai + 1 for x in ht["a"][1:] for o in trace(hb, x, through_calls=False))
+                                    recv = trace(hb, ht["a"][0], through_calls=False)
+                                    if fn_from_param and any(o.kind == "call" and callee_matches(o.data, GATES) for o in recv):
+                                        via_adapter = True
             ctx.check(bool(gated) or via_adapter, "C14.R1", b.path, "gated.%s" % role,
                       "dominated by the success edge of %s" % (gated[0][1]["f"]["name"] if gated else "a gate via Result::and_then") if (gated or via_adapter) else
                       "entry/subscribe/reconcile effect reachable without passing an open gate: it would operate on a document that is not open", t["sp"])
@@ -117,7 +133,7 @@ def r1(ctx):
             return True
         if depth <= 0:
             return False
-        callers = {cb.path for cb, _, _ in f.callers().get(path, []) if cb.path.startswith("actor::")}
+        callers = {(cb.rec.get("root") or cb.path) for cb, _, _ in f.callers().get(path, []) if cb.path.startswith("actor::")}     # (a closure of a gate is the gate)
         return bool(callers) and all(only_from_gates(c, depth - 1) for c in callers)
     for b in f.bodies.values():
         if not b.path.startswith("actor::"):
